@@ -17,7 +17,7 @@ from vf.props.c02 import Bad
 
 PROPERTY = "C10"
 LEVEL = "model_checking"
-ASSUMPTIONS = ["DC1: integral JSON floats for Int / ID may be accepted or rejected", "DC10: String result for non-strings is any str"]
+ASSUMPTIONS = ["DC1: integral JSON floats for Int / ID may be accepted or rejected", "DC10: String result for values other than strings, booleans and numbers is any str"]
 BUDGET_S = {"quick": 60, "thorough": 600}
 
 SCALARS = ["Int", "Float", "String", "Boolean", "ID", "Date", "Time", "DateTime"]
@@ -107,6 +107,14 @@ def l1_ok(scalar, x, r):
             return "string-not-str"
         if isinstance(x, str):
             return None if r == x else "string-changed-value"
+        # booleans and numbers must still denote the same value ("true"/"false", a numeral that reads back equal); DC10 for the rest
+        if isinstance(x, bool):
+            return None if r.lower() in ("true", "false") and (r.lower() == "true") is x else "string-changed-value"
+        if isinstance(x, (int, float)):
+            if x != x:
+                return None
+            f = str_number(r)
+            return None if (f is not None and num_eq(f, x)) or (isinstance(x, int) and r == str(x)) else "string-changed-value"
         return None  # DC10
     if scalar == "Boolean":
         if type(r) is not bool:
